@@ -2,8 +2,8 @@
 # Re-evaluates every seeded defect kept under /verif/seeded against the current checks.
 # Needs the seeds' working copies in /tmp/seedwork-<PID>/<n> (as delivered by the seeding agents) or,
 # when those are gone, restores them from /verif/seeded/<PID>-<n>/.
-# Two lanes run in parallel; lane A holds every seed whose "existing tests" are the root package
-# (those bind TCP port 26001 and must never overlap).
+# Three lanes run in parallel; root-package test runs are serialised with flock /tmp/port26001.lock
+# (they bind TCP port 26001).
 cd /verif
 restore() { # restore() <PID> <n>
   local d=/tmp/seedwork-$1/$2
@@ -54,8 +54,52 @@ ev C18 2 internal/raft/zz_demo_test.go ./internal/raft -- C18 C03
 ev C19 1 internal/raft/zz_c19_demo1_test.go ./internal/raft -- C19 C02
 ev C19 2 internal/raft/zz_c19_demo2_test.go ./internal/raft -- C19 C02
 }
+# second round of seeded defects (n = 3, 4)
+laneC() {
+ev C11 3 zz_c11_demo3_test.go . -- C11
+ev C12 3 zz_demo_test.go . -- C12
+ev C12 4 zz_demo_test.go . -- C12
+ev C16 3 zz_demo_test.go . ./internal/server -- C16
+ev C16 4 zz_demo_test.go . -- C16
+ev C20 3 zz_demo_test.go . ./internal/logdb -- C20 C09
+ev C04 4 zz_demo_test.go . -- C04
+ev C08 3 zz_demo_test.go . -- C08 C16
+ev C01 4 zz_demo_c01_4_test.go . -- C01 C04
+ev C06 4 zz_demo_test.go . -- C06 C12
+ev C01 3 internal/rsm/zz_demo_c01_3_test.go ./internal/rsm -- C01 C11
+ev C02 3 internal/tan/zz_demo_test.go ./internal/tan -- C02 C09 C10
+ev C02 4 internal/logdb/zz_demo_test.go ./internal/logdb -- C02 C10 C04
+ev C03 3 internal/raft/zz_demo_test.go ./internal/raft -- C03
+ev C03 4 internal/raft/zz_demo_test.go ./internal/raft -- C03 C18
+ev C04 3 internal/tan/zz_demo_test.go ./internal/tan -- C04 C10
+ev C05 3 internal/rsm/zz_demo_test.go ./internal/rsm -- C05
+ev C05 4 internal/rsm/zz_demo_test.go ./internal/rsm -- C05
+ev C06 3 internal/raft/zz_demo_test.go ./internal/raft -- C06
+ev C07 3 internal/rsm/zz_demo_c07_3_test.go ./internal/rsm -- C07
+ev C07 4 internal/rsm/zz_demo_c07_4_test.go ./internal/rsm -- C07
+ev C08 4 internal/transport/zz_demo_test.go ./internal/transport -- C08 C16
+ev C09 3 internal/logdb/zz_demo_test.go ./internal/logdb -- C09
+ev C09 4 internal/tan/zz_demo_test.go ./internal/tan -- C09
+ev C10 3 internal/tan/zz_demo_c10_3_test.go ./internal/tan -- C10
+ev C10 4 internal/tan/zz_demo_c10_4_test.go ./internal/tan -- C10
+ev C11 4 internal/rsm/zz_c11_demo4_test.go ./internal/rsm -- C11
+ev C13 3 internal/transport/zz_demo_test.go ./internal/transport -- C13
+ev C13 4 internal/transport/zz_demo_test.go ./raftpb ./internal/transport -- C13
+ev C14 3 internal/rsm/zz_demo_c14_3_test.go ./internal/rsm -- C14
+ev C14 4 internal/rsm/zz_demo_c14_4_test.go ./internal/rsm -- C14
+ev C15 3 internal/transport/zz_demo_test.go ./internal/transport -- C15
+ev C15 4 internal/transport/zz_demo_test.go ./internal/transport -- C15
+ev C18 3 internal/raft/zz_demo_test.go ./internal/raft -- C18
+ev C18 4 internal/raft/zz_demo_test.go ./internal/raft -- C18 C07
+ev C19 3 internal/raft/zz_c19_demo3_test.go ./internal/raft -- C19
+ev C19 4 internal/logdb/zz_c19_demo4_test.go ./internal/logdb -- C19
+ev C20 4 tools/zz_demo_test.go ./tools -- C20
+ev C17 3 internal/raft/zz_demo_c17_3_test.go ./internal/raft -- C17
+ev C17 4 internal/raft/zz_demo_c17_4_test.go ./internal/raft -- C17
+}
 laneA > /tmp/seed_eval_A.out 2>&1 &
 laneB > /tmp/seed_eval_B.out 2>&1 &
+laneC > /tmp/seed_eval_C.out 2>&1 &
 wait
 python3 tools/seed_meta.py
 python3 tools/gen_seed_table.py
